@@ -93,9 +93,21 @@ class Ctx:
         Returns 'ok' | 'known' | 'violation'."""
         if obs == expect:
             return "ok"
+        eq = dev_matches or (lambda p, o: p == o)
+        if isinstance(devs, list):
+            # [{d: [deviation names], o: predicted observable}]: any subset of the OPEN deviations explains it
+            od = set(self.open_devs())
+            cands = [e["d"] for e in devs if e.get("d") and set(e["d"]) <= od and eq(e["o"], obs)]
+            if cands:
+                for d in min(cands, key=len):
+                    self.known_hit[d] = self.known_hit.get(d, 0) + 1
+                return "known"
+            devs_single = None
+        else:
+            devs_single = devs
         for f in self.open:
             d = f.get("deviation")
-            if d and devs and d in devs and (dev_matches(devs[d], obs) if dev_matches else devs[d] == obs):
+            if d and devs_single and d in devs_single and eq(devs_single[d], obs):
                 self.known_hit[d] = self.known_hit.get(d, 0) + 1
                 return "known"
             m = f.get("match")
@@ -173,14 +185,13 @@ class Ctx:
                 return total - rejects
 
     def _known_from_msg(self, m):
-        # <<"MSG", "KNOWN", "deviation", case>>
-        try:
-            parts = json.loads("[" + m.strip()[2:-2] + "]")
-        except Exception:
+        # <<"MSG", "KNOWN", "deviation" | {"dev1", "dev2"}, case>>
+        import re as _re
+        if '"KNOWN"' not in m:
             return
-        if len(parts) >= 3 and parts[1] == "KNOWN":
-            d = parts[2]
-            if any(f.get("deviation") == d for f in self.open):
+        opn = set(self.open_devs())
+        for d in _re.findall(r'"([A-Za-z0-9_]+)"', m):
+            if d in opn:
                 self.known_hit[d] = self.known_hit.get(d, 0) + 1
 
     def open_devs(self):
@@ -309,6 +320,9 @@ class VectorEngine(Engine):
     def sample(self, inp, case, obs):
         return dict(input=inp, rendered=case.get("src") or case.get("files"), observed=obs)
 
+    def expect_of(self, vec):
+        return vec["expect"]
+
     def strip(self, vec):
         """the input part of a vector (what goes into events / replay files)"""
         return {k: v for k, v in vec.items() if k not in ("expect", "dev")}
@@ -338,8 +352,6 @@ class VectorEngine(Engine):
             r = res[c["id"]]
             obs = self.project(inp, r)
             devs = v.get("dev") or {}
-            if isinstance(devs, list):
-                devs = {}
             ctx.note_case(self.key(inp), nontrivial=self.nontrivial(v),
                           sample=self.sample(inp, c, obs) if i % max(1, len(vecs) // 3) == 0 else None)
             ctx.traces += 1
